@@ -173,6 +173,18 @@ def r18a(ctx: Context) -> None:
             facts = guards_of(setter.node, assign)
             if not any(pol and norm(test) == f"{var} is None" for test, pol in facts):
                 rule.fail(func_key(setter, assign), where(setter, assign), f"fallback '{text}' overrides a more specific layer: not guarded by '{var} is None'")
+    # the argument layer must be able to be silent: no default on the argparse option
+    adder = prog.method(RCH, "add_command_line_arguments")
+    for node in walk_local(adder.node):
+        if isinstance(node, ast.Call) and isinstance(node.func, ast.Attribute) and node.func.attr == "add_argument":
+            dest = next((k.value for k in node.keywords if k.arg == "dest"), None)
+            if isinstance(dest, ast.Constant) and dest.value == "return_code_scheme":
+                default = next((k.value for k in node.keywords if k.arg == "default"), None)
+                akey = func_key(adder) + ": argument default"
+                if default is None or (isinstance(default, ast.Constant) and default.value is None):
+                    rule.ok(akey, "no default: an absent --return-code-scheme leaves the decision to the configuration")
+                else:
+                    rule.fail(akey, where(adder, node), f"--return-code-scheme is registered with default={norm(default)}: the argument is never None, so the scheme set by configuration is ignored")
     if kinds != ["argument", "configuration", "default"]:
         rule.fail(func_key(setter) + ": order", where(setter), f"scheme selection order is {kinds}, expected argument, configuration, default")
     else:
